@@ -97,8 +97,8 @@ fn res_name(rng: &mut Rng, words: usize) -> String {
 /// A resource world built from a template: one imported and one exported
 /// interface, each with a resource whose name has 1..3 words.
 fn resource_template(rng: &mut Rng, k: usize) -> (String, String) {
-    let w_imp = 1 + (k % 3);
-    let w_exp = 1 + ((k / 3 + 1) % 3);
+    let w_exp = 1 + ((k + 1) % 3);
+    let w_imp = 1 + ((k / 2) % 3);
     let r1 = res_name(rng, w_imp);
     let mut r2 = res_name(rng, w_exp);
     if r2 == r1 {
@@ -160,9 +160,20 @@ pub fn select(seed: u64, count: usize, resources: bool) -> Vec<Picked> {
     let mut rng = Rng::new(seed ^ if resources { 0xC11 } else { 0xC10 });
     let mut out: Vec<Picked> = vec![];
     let variant = |i: usize| Opts::parse(VARIANTS[(i + seed as usize) % VARIANTS.len()]);
+    let corpus = sync_corpus();
     if resources {
+        // C11 = the memory-heavy part of the C10 worlds + resource worlds.
+        // strings-lists (nested owned memory everywhere) is always present.
+        let sl = corpus.iter().position(|c| c.0 == "strings-lists").unwrap();
+        let ncorp = if count >= 100 { corpus.len() * 2 } else { 2 };
+        for j in 0..ncorp {
+            let k = if j == 0 { sl } else { (j + seed as usize) % corpus.len() };
+            let (name, wit) = &corpus[k];
+            let o = variant(j + if j == 0 { 0 } else { 1 });
+            out.push(Picked { wit: wit.clone(), world: "w".into(), opts: o, origin: format!("corpus:{name}"), tags: vec![] });
+        }
         // resource templates: enough of them to cover 1/2/3-word names on both sides
-        let nt = (count / 2).max(4).min(count);
+        let nt = if count >= 100 { count / 4 } else { 6.min(count) };
         for k in 0..nt {
             let (wit, world) = resource_template(&mut rng, k + (seed as usize % 9) * 9);
             // autodrop on/off alternate; every 4th template also varies flattening
@@ -173,7 +184,6 @@ pub fn select(seed: u64, count: usize, resources: bool) -> Vec<Picked> {
             out.push(Picked { wit, world, opts: o, origin: "resource-template".into(), tags: vec!["resource".into()] });
         }
     } else {
-        let corpus = sync_corpus();
         // quick tiers see a rotating part of the corpus, thorough all of it under every variant
         let ncorp = if count >= 100 { corpus.len() * VARIANTS.len() } else { (count / 3).max(2).min(corpus.len()) };
         for j in 0..ncorp {
